@@ -537,7 +537,16 @@ func normalizeStructInto(cfg *Config, opts *options, from reflect.Value) Error {
 					// enclosing object (it has no exported fields to walk)
 					err = normalizeConfigInto(cfg, opts, c.Addr().Interface().(*Config))
 				} else {
+					// inlining adds no level to the configuration, but it is
+					// a level of the walk: a value that inlines itself
+					// through a pointer would be followed forever
+					opts.normalizeDepth++
+					if opts.normalizeDepth > maxNestingDepth {
+						opts.normalizeDepth--
+						return raiseNestingTooDeep(opts.meta)
+					}
 					err = normalizeStructInto(cfg, opts, vField)
+					opts.normalizeDepth--
 				}
 			case reflect.Map:
 				err = normalizeMapInto(cfg, opts, vField)
